@@ -99,7 +99,7 @@ def root_stores(a):
     v, seen = a, 0
     while isinstance(v, Arr) and seen < 20:
         seen += 1
-        if 'stores' in v.tags or v.tags.get('alloc') in ('zeros', 'ones'):
+        if 'stores' in v.tags or v.tags.get('alloc') in ('zeros', 'ones', 'empty'):
             return v
         if v.parents and v.parents[0].buf is v.buf and all(sz_eq(x, y) for x, y in zip(v.shape, v.parents[0].shape)) and len(v.shape) == len(v.parents[0].shape):
             v = v.parents[0]
@@ -200,7 +200,7 @@ def entry(a, idx, env=None, _before=None):
             return UNKNOWN
     # ---- arrays assembled by stores
     alloc = root_stores(a)
-    if alloc is not None and alloc.tags.get('alloc') in ('zeros', 'ones') and (alloc is a or alloc.buf is a.buf):
+    if alloc is not None and alloc.tags.get('alloc') in ('zeros', 'ones', 'empty') and (alloc is a or alloc.buf is a.buf):
         added = []
         for st in reversed(alloc.tags.get('stores', [])):
             if st.get('mode') == 'add':
@@ -241,7 +241,7 @@ def entry(a, idx, env=None, _before=None):
             if st.get('mode') not in (None, 'set'):
                 return UNKNOWN
             return entry(st['value'], rel, e2) if isinstance(st['value'], Arr) or not isinstance(st['value'], (int, float, complex)) else ('num', st['value'])
-        return ('zero',) if alloc.tags.get('alloc') == 'zeros' else ('num', 1)
+        return _initial(alloc)
     # ---- opaque input arrays that carry a name: the entry is that array's entry
     if a.origin != 'getitem' and not a.tags.get('is_reshape') and ('element' in a.tags or 'role' in a.tags) and 'stores' not in a.tags:
         return ('src', (a.tags.get('element', a.tags.get('role')), id(a)), tuple(idx))
@@ -315,9 +315,14 @@ def entry(a, idx, env=None, _before=None):
     return UNKNOWN
 
 
+def _initial(alloc):
+    """content of a position no store has reached (np.empty: whatever was in memory)"""
+    return {'zeros': ('zero',), 'ones': ('num', 1)}.get(alloc.tags.get('alloc'), UNKNOWN)
+
+
 def _fold_stores(alloc, idx, env):
     """content of a position of an allocated array after all stores / in-place operations, applied in program order"""
-    cur = ('zero',) if alloc.tags.get('alloc') == 'zeros' else ('num', 1)
+    cur = _initial(alloc)
     for st in alloc.tags.get('stores', []):
         e2, rel, ok = env, [], True
         for ax, s_ in enumerate(st['sel']):
